@@ -1579,3 +1579,64 @@ pub fn annot_wb(tier: Tier, feat: Feat) -> BoxedStrategy<AnnotWb> {
         })
         .boxed()
 }
+
+/// Hyperlink-heavy workbooks and nothing else on the sheets but what shares the relationship
+/// numbering with hyperlinks (printer settings, comments): 1..3 sheets, 2..24 links each.
+pub fn links_wb(tier: Tier) -> BoxedStrategy<AnnotWb> {
+    let _ = tier;
+    let target = prop_oneof![
+        6 => url().prop_map(|u| (false, u)),
+        1 => location().prop_map(|l| (true, l)),
+    ];
+    let links = prop::collection::vec((col_pos(), row_pos(), target, prop::option::weighted(0.3, nonempty_text(12))), 2..=24).prop_map(|v| {
+        let mut seen = BTreeSet::new();
+        v.into_iter()
+            .filter(|(c, r, _, _)| seen.insert((*c, *r)))
+            .map(|(col, row, (internal, target), tooltip)| LinkSpec { col, row, internal, target, tooltip })
+            .collect::<Vec<_>>()
+    });
+    let sheet = (links, prop::option::weighted(0.3, prop::collection::vec(any::<u8>(), 1..20)), sized_vec((col_pos(), row_pos(), author()).boxed(), 4)).prop_map(|(links, blob, comments)| {
+        let mut seen = BTreeSet::new();
+        AnnotSheet {
+            name: String::new(),
+            state: 0,
+            removed_before_save: false,
+            merges: Vec::new(),
+            names: Vec::new(),
+            links,
+            comments: comments
+                .into_iter()
+                .filter(|(c, r, _)| seen.insert((*c, *r)))
+                .map(|(col, row, author)| CommentSpec {
+                    col,
+                    row,
+                    author,
+                    runs: vec!["note".to_string()],
+                    with_shape: true,
+                })
+                .collect(),
+            validations: Vec::new(),
+            cond_formats: Vec::new(),
+            auto_filter: None,
+            tab_color: None,
+            view: None,
+            ws_active_cell: None,
+            page: PageSpec { object_data: blob, ..PageSpec::default() },
+            header: None,
+            footer: None,
+            protection: None,
+        }
+    });
+    (sheet_names(3, 3), prop::collection::vec(sheet, 1..=3), any::<u16>())
+        .prop_map(|(names, sheets, active_raw)| {
+            let wb = AnnotWb {
+                sheets,
+                active_tab: 0,
+                set_active: false,
+                wb_names: Vec::new(),
+                wb_protection: None,
+            };
+            normalise(wb, names, active_raw)
+        })
+        .boxed()
+}
